@@ -34,8 +34,20 @@ def finished_only_when_reaped(ctx, prog, rule):
     fin_stores = [(bb, si, s) for (bb, si, s) in stores_to_field(wp, "child_state", "popen::Popen") if si != "term" and s["k"] == "assign" and not wp.blocks[bb].get("cleanup")]
     seen_undetermined = False
     seen_status = False
+    # a store of `match .. { a => Finished(x), b => Finished(y) }` is looked at per alternative, each where its value is built
+    expanded = []
     for bb, si, s in fin_stores:
         val = T.rvalue(s["r"])
+        if val[0] == "phi":
+            for a_ in M.alts(val):
+                site = [(b2, i2) for (b2, i2, r2) in aggregates_of(wp, "popen::ChildState") if T.rvalue(r2) == a_]
+                if a_[0] == "agg" and len(site) == 1:
+                    expanded.append((site[0][0], site[0][1], a_))
+                else:
+                    expanded.append((bb, si, a_))
+        else:
+            expanded.append((bb, si, val))
+    for bb, si, val in expanded:
         if val[0] != "agg":
             continue
         payload = val[2][0] if val[2] else None
@@ -112,7 +124,11 @@ def run(ctx):
         for bb, si in mut_borrows_of_field(fn, "child_state", POPEN):
             borrows.append((fn, bb))
     ctx.floor("R09.1", "constructions of Popen", len(constructions), 1)
-    ctx.floor("R09.1", "stores to Popen::child_state", len(stores), 3)
+    # (one store of `match .. { a => Finished(x), b => Finished(y) }` counts as the two stores it stands for)
+    n_values = 0
+    for fn_, bb_, si_, s_ in stores:
+        n_values += len(M.alts(M.Terms(fn_).rvalue(s_["r"]))) if s_["k"] == "assign" else 1
+    ctx.floor("R09.1", "stores to Popen::child_state", n_values, 3)
     for fn, bb, r in constructions:
         T = M.Terms(fn)
         idx = r["fields"].index("child_state")
@@ -190,7 +206,9 @@ def run(ctx):
                 ctx.ob("R09.2", "waitpid.between:%s" % M.callee_str(tt["f"]), False, fn.loc(rb),
                        "call between the Running test and waitpid: %s" % M.callee_str(tt["f"]))
     # under Finished the wait family reaches nothing but pure projections
-    PURE = ("popen::Popen::exit_status", "std::option::Option::<T>::unwrap", "std::option::Option::<T>::expect")
+    PURE = ("popen::Popen::exit_status", "popen::Popen::pid", "std::option::Option::<T>::unwrap", "std::option::Option::<T>::expect",
+            "std::option::Option::<T>::is_some", "std::option::Option::<T>::is_none", "std::option::Option::<T>::as_ref", "std::option::Option::<T>::unwrap_or",
+            "std::option::Option::<T>::is_some_and", "std::option::Option::<T>::copied", "std::option::Option::<T>::cloned")
     for name in ("os_wait", "os_wait_timeout", "PopenOsImpl>::waitpid"):
         f = prog.one(name)
         ex = M.Explore(f, assume={self_field("child_state"): CHILD_STATE["Finished"]})
